@@ -123,12 +123,76 @@ func normBV(v *big.Int, w int) *big.Int {
 
 // BVConst makes a bit-vector constant from any integer (wrapped mod 2^w).
 func BVConst(v *big.Int, w int) *Term {
+	if w <= 64 && v.IsInt64() {
+		return BVConst64(v.Int64(), w)
+	}
 	return &Term{S: SBV(w), Op: "const", C: normBV(v, w)}
 }
-func BVConst64(v int64, w int) *Term { return BVConst(big.NewInt(v), w) }
-func IntConst(v *big.Int) *Term      { return &Term{S: SInt, Op: "const", C: new(big.Int).Set(v)} }
-func IntConst64(v int64) *Term       { return IntConst(big.NewInt(v)) }
-func FPConst(f float64) *Term        { return &Term{S: SFP, Op: "const", F: f} }
+
+const smallLo, smallHi = -256, 1280
+
+var smallBV [65][]*Term // per width: constants smallLo..smallHi-1, built at init
+
+func init() {
+	for _, w := range []int{1, 8, 16, 32, 64} {
+		tab := make([]*Term, smallHi-smallLo)
+		for v := smallLo; v < smallHi; v++ {
+			tab[v-smallLo] = &Term{S: SBV(w), Op: "const", C: normBV(big.NewInt(int64(v)), w)}
+		}
+		smallBV[w] = tab
+	}
+}
+
+func BVConst64(v int64, w int) *Term {
+	if w <= 64 && v >= smallLo && v < smallHi {
+		if tab := smallBV[w]; tab != nil {
+			if w < 64 {
+				// values must be canonical: reduce modulo 2^w first for narrow widths
+				m := int64(1) << uint(w)
+				u := ((v % m) + m) % m
+				if u < smallHi {
+					return tab[u-smallLo]
+				}
+				if u-m >= smallLo {
+					return tab[u-m-smallLo]
+				}
+			} else {
+				return tab[v-smallLo]
+			}
+		}
+	}
+	return &Term{S: SBV(w), Op: "const", C: normBV(big.NewInt(v), w)}
+}
+
+// bvConstU makes a constant of width w <= 64 from the low w bits of u.
+func bvConstU(u uint64, w int) *Term {
+	if w < 64 {
+		u &= (uint64(1) << uint(w)) - 1
+		// sign-interpret for the cache lookup
+		s := int64(u)
+		if u>>(uint(w)-1) == 1 {
+			s = int64(u) - (int64(1) << uint(w))
+		}
+		return BVConst64(s, w)
+	}
+	return BVConst64(int64(u), 64)
+}
+
+// u64 returns the value of a constant of width <= 64 as uint64 and int64.
+func (t *Term) u64() (uint64, int64) {
+	u := t.C.Uint64()
+	w := t.S.W
+	if w < 64 {
+		if u>>(uint(w)-1) == 1 {
+			return u, int64(u) - (int64(1) << uint(w))
+		}
+		return u, int64(u)
+	}
+	return u, int64(u)
+}
+func IntConst(v *big.Int) *Term { return &Term{S: SInt, Op: "const", C: new(big.Int).Set(v)} }
+func IntConst64(v int64) *Term  { return IntConst(big.NewInt(v)) }
+func FPConst(f float64) *Term   { return &Term{S: SFP, Op: "const", F: f} }
 
 func Var(name string, s Sort) *Term { return &Term{S: s, Op: "var", Name: name} }
 
@@ -292,6 +356,60 @@ func bvBin(op string, a, b *Term, f func(x, y *big.Int, w int) *big.Int) *Term {
 	if a.S != b.S || a.S.K != KBV {
 		panic(fmt.Sprintf("%s: sort mismatch %v %v", op, a.S, b.S))
 	}
+	if a.IsConst() && b.IsConst() && a.S.W <= 64 {
+		// native fast path (no big.Int allocation)
+		w := a.S.W
+		xu, xs := a.u64()
+		yu, ys := b.u64()
+		switch op {
+		case "bvadd":
+			return bvConstU(xu+yu, w)
+		case "bvsub":
+			return bvConstU(xu-yu, w)
+		case "bvmul":
+			return bvConstU(xu*yu, w)
+		case "bvand":
+			return bvConstU(xu&yu, w)
+		case "bvor":
+			return bvConstU(xu|yu, w)
+		case "bvxor":
+			return bvConstU(xu^yu, w)
+		case "bvshl":
+			if yu >= uint64(w) {
+				return bvConstU(0, w)
+			}
+			return bvConstU(xu<<yu, w)
+		case "bvlshr":
+			if yu >= uint64(w) {
+				return bvConstU(0, w)
+			}
+			return bvConstU(xu>>yu, w)
+		case "bvashr":
+			if yu >= uint64(w) {
+				if xs < 0 {
+					return bvConstU(^uint64(0), w)
+				}
+				return bvConstU(0, w)
+			}
+			return bvConstU(uint64(xs>>yu), w)
+		case "bvudiv":
+			if yu != 0 {
+				return bvConstU(xu/yu, w)
+			}
+		case "bvurem":
+			if yu != 0 {
+				return bvConstU(xu%yu, w)
+			}
+		case "bvsdiv":
+			if ys != 0 && !(ys == -1 && xs == -1<<63) {
+				return bvConstU(uint64(xs/ys), w)
+			}
+		case "bvsrem":
+			if ys != 0 && !(ys == -1 && xs == -1<<63) {
+				return bvConstU(uint64(xs%ys), w)
+			}
+		}
+	}
 	if a.IsConst() && b.IsConst() {
 		if r := f(a.C, b.C, a.S.W); r != nil {
 			return BVConst(r, a.S.W)
@@ -413,6 +531,20 @@ func bvCmp(op string, a, b *Term, f func(x, y *big.Int, w int) bool) *Term {
 	if a.S != b.S || a.S.K != KBV {
 		panic(fmt.Sprintf("%s: sort mismatch %v %v", op, a.S, b.S))
 	}
+	if a.IsConst() && b.IsConst() && a.S.W <= 64 {
+		xu, xs := a.u64()
+		yu, ys := b.u64()
+		switch op {
+		case "bvult":
+			return BoolConst(xu < yu)
+		case "bvule":
+			return BoolConst(xu <= yu)
+		case "bvslt":
+			return BoolConst(xs < ys)
+		case "bvsle":
+			return BoolConst(xs <= ys)
+		}
+	}
 	if a.IsConst() && b.IsConst() {
 		return BoolConst(f(a.C, b.C, a.S.W))
 	}
@@ -435,6 +567,10 @@ func Extract(hi, lo int, a *Term) *Term {
 	if lo == 0 && hi == a.S.W-1 {
 		return a
 	}
+	if a.IsConst() && a.S.W <= 64 {
+		u, _ := a.u64()
+		return bvConstU(u>>uint(lo), hi-lo+1)
+	}
 	if a.IsConst() {
 		v := new(big.Int).Rsh(a.C, uint(lo))
 		return BVConst(v, hi-lo+1)
@@ -445,6 +581,10 @@ func ZeroExt(n int, a *Term) *Term {
 	if n == 0 {
 		return a
 	}
+	if a.IsConst() && a.S.W+n <= 64 {
+		u, _ := a.u64()
+		return bvConstU(u, a.S.W+n)
+	}
 	if a.IsConst() {
 		return BVConst(a.C, a.S.W+n)
 	}
@@ -453,6 +593,10 @@ func ZeroExt(n int, a *Term) *Term {
 func SignExt(n int, a *Term) *Term {
 	if n == 0 {
 		return a
+	}
+	if a.IsConst() && a.S.W+n <= 64 {
+		_, sv := a.u64()
+		return bvConstU(uint64(sv), a.S.W+n)
 	}
 	if a.IsConst() {
 		return BVConst(toSigned(a.C, a.S.W), a.S.W+n)
